@@ -13,7 +13,8 @@ rally's real command line and checks the trace with C01's checker.
 """
 import copy
 
-from esrally import exceptions
+from esrally import config, exceptions
+from esrally.driver import driver
 
 from props import c02
 from props import c02_gen as gen
@@ -33,7 +34,7 @@ ASSUMPTIONS = [
 ]
 C02_CLAUSES = ["rectangular", "join-aligned", "exact-cover", "steps-progress", "driver-progress", "driver-clients-exactly-once"]
 REQUIRED_CLAUSES = [
-    "e2e:executed-exactly-kept", "wellformed-accepted", "kept-exactly", "order-preserved", "properties-unchanged", "no-empty-parallel", "malformed-rejected",
+    "e2e:executed-exactly-kept", "wellformed-accepted", "kept-exactly", "order-preserved", "properties-unchanged", "no-empty-parallel", "malformed-rejected", "still-selectable",
 ] + ["c02:" + c for c in C02_CLAUSES]
 REQUIRED_FEATURES = {
     "e2e": 20, "e2e:include": 5, "e2e:exclude": 5,
@@ -208,6 +209,20 @@ def eval_case(ctx, case):
         filtered.append(groups)
         facts.update(base)
         problems.extend((clause, msg, detail, facts) for clause, msg, detail in ps)
+        # whatever the filters left of it - nothing at all included - the challenge is still the one the driver and the reports select
+        ctx.clause("still-selectable")
+        try:
+            cfg = config.Config()
+            cfg.add(config.Scope.application, "track", "challenge.name", ch.name)
+            picked = driver.select_challenge(cfg, trk)
+            for other in trk.challenges:
+                other.selected = other is ch
+            via_track = trk.selected_challenge_or_default
+            if picked is not ch or via_track is not ch:
+                problems.append(("still-selectable", f"challenge {ci} ({ch.name!r}, {len(ch.schedule)} schedule elements after {flt.get('mode')}-tasks={flt.get('spec')!r}): driver.select_challenge "
+                                 f"gives {getattr(picked, 'name', picked)!r}, Track.selected_challenge_or_default gives {getattr(via_track, 'name', via_track)!r}", None, dict(facts)))
+        except Exception as e:
+            problems.append(("still-selectable", f"challenge {ci} ({ch.name!r}, {len(ch.schedule)} schedule elements after filtering) can no longer be selected: {type(e).__name__}: {e}", None, dict(facts)))
     return problems, filtered
 
 
